@@ -174,6 +174,36 @@ def gen_crlb_case(rng, i):
             "log": rng.random() < 0.4, "cplx": cplx}
 
 
+SCALE_EXPS = [-40, -33, -27, -20, -17, -13, -7, 0, 7, 13, 20, 27, 33, 40]      # 2**-40 ~ 1e-12 ... 2**40 ~ 1e12
+
+
+def gen_scaled_case(rng, i):
+    """a well-conditioned case whose batch elements are scaled by powers of two (J, H by 2**a_b, sigma2 = 2**e):
+    binary64 arithmetic commutes with these scalings, cost/split/gradient scale by exactly 2**(e - 2 a_b)"""
+    c = gen_crlb_case(rng, i)
+    c["log"] = False
+    a = np.array([rng.choice(SCALE_EXPS) for _ in range(int(np.prod(c["batch"])) or 1)], dtype=int).reshape(c["batch"])
+    e = rng.choice(SCALE_EXPS)
+    if i % 3 == 0:      # the small-magnitude corner: tiny signal and/or large noise variance
+        a = -np.abs(a) - (17 if c["p"] == 3 else 25 if c["p"] == 2 else 50) * (rng.random() < 0.5)
+        e = abs(e)
+    sc = np.ldexp(1.0, a)
+    c["J"] = c["J"] * sc[..., None, None]
+    if c["H"] is not None:
+        c["H"] = c["H"] * sc[..., None, None, None]
+    c["sigma2"] = float(np.ldexp(1.0, e))
+    c["kexp"] = (2 * a - e)           # value * 2**kexp is the value of the unscaled problem with sigma2 = 1
+    c["scaled"] = True
+    return c
+
+
+def norm_factor(c, b):
+    if "kexp" not in c or c["kexp"] is None:
+        return Fraction(1)
+    k = int(np.asarray(c["kexp"])[b])
+    return Fraction(2) ** k
+
+
 def gen_confint_case(rng, i):
     batch = [(), (), (2,), (2, 3)][i % 4]
     p = rng.randint(1, 3)
@@ -208,8 +238,10 @@ def gen_confint_case(rng, i):
 
 
 def case_json(c):
-    d = {k: v for k, v in c.items() if k not in ("J", "H", "W", "obs", "pred")}
+    d = {k: v for k, v in c.items() if k not in ("J", "H", "W", "obs", "pred", "kexp")}
     d["batch"] = list(c["batch"])
+    if c.get("kexp") is not None:
+        d["kexp"] = np.asarray(c["kexp"]).tolist()
     for k in ("J", "H", "obs", "pred"):
         if k in c:
             d[k] = None if c[k] is None else tolist_c(c[k])
@@ -228,6 +260,8 @@ def case_from_json(d):
                 c[k] = c[k].real.copy()
     if "W" in d:
         c["W"] = None if d["W"] is None else np.array(d["W"])
+    if d.get("kexp") is not None:
+        c["kexp"] = np.array(d["kexp"], dtype=int)
     return c
 
 
@@ -270,21 +304,42 @@ def Wb(c, b):
 
 # ---------------------------------------------------------------- Gallina terms
 def crlb_term(c, out, b):
+    """model evaluated on the very input of the implementation; for scaled cases both sides are multiplied by the
+    exact power of two k that brings the values back to order one (the tolerance has an absolute floor)"""
     n, p, nx = c["n"], c["p"], c["nx"]
     J = np.asarray(c["J"][b], complex)
     W = Wb(c, b)
-    lets = "let J : mat F := %s in let W : option (vec F) := %s in let s : F := %s in " % (
-        cmat(J), "None" if W is None else "(Some %s)" % rvec(W), rq(c["sigma2"]))
+    k = norm_factor(c, b)
+    kv = lambda x: rq_frac(core.frac(float(x)) * k)
+    lets = "let J : mat F := %s in let W : option (vec F) := %s in let s : F := %s in let k : F := %s in " % (
+        cmat(J), "None" if W is None else "(Some %s)" % rvec(W), rq(c["sigma2"]), rq_frac(k))
     parts = ["inv_ok_b (F:=F) minv_adj %d (fisher (F:=F) %d %d s J)" % (p, n, p),
-             "qc_close %s %s (crlb (F:=F) minv_adj %d %d J W s)" % (TOL, rq(out["cost"][b]), n, p),
-             "all2 (qc_close %s) %s (crlb_split (F:=F) minv_adj %d %d J W s)" % (
-                 TOL, rvec([out["split"][(a,) + b] for a in range(p)]), n, p)]
+             "qc_close %s %s (k * crlb (F:=F) minv_adj %d %d J W s)%%K" % (TOL, kv(out["cost"][b]), n, p),
+             "all2 (qc_close %s) %s (map (kmul k) (crlb_split (F:=F) minv_adj %d %d J W s))" % (
+                 TOL, core.clist([kv(out["split"][(a,) + b]) for a in range(p)]), n, p)]
     if c["H"] is not None:
         H = np.asarray(c["H"][b], complex)
-        parts.append("qc_close %s %s (crlb (F:=F) minv_adj %d %d J W s)" % (TOL, rq(out["cost2"][b]), n, p))
-        parts.append("all2 (qc_close %s) %s (crlb_grad (F:=F) minv_adj %d %d %d J %s W s)" % (
-            TOL, rvec(out["grad"][b]), n, p, nx, cten(H)))
+        parts.append("qc_close %s %s (k * crlb (F:=F) minv_adj %d %d J W s)%%K" % (TOL, kv(out["cost2"][b]), n, p))
+        parts.append("all2 (qc_close %s) %s (map (kmul k) (crlb_grad (F:=F) minv_adj %d %d %d J %s W s))" % (
+            TOL, core.clist([kv(x) for x in out["grad"][b]]), n, p, nx, cten(H)))
     return "(" + lets + " && ".join(parts) + ")"
+
+
+def nonfinite_outputs(c, out):
+    """crlb / crlb_split / gradient must be finite numbers on a full-rank, well-conditioned problem"""
+    for key in ("cost", "split", "cost2", "grad", "cost_log", "split_log", "cost2_log", "grad_log"):
+        if key in out and not np.all(np.isfinite(out[key])):
+            bad = np.argwhere(~np.isfinite(np.asarray(out[key])))[0]
+            b = tuple(int(x) for x in (bad[1:1 + len(c["batch"])] if key.startswith("split") else bad[:len(c["batch"])]))
+            J = np.asarray(c["J"][b], complex)
+            nrm = np.sqrt(np.sum(np.abs(J) ** 2, axis=0))
+            Bn = np.linalg.inv(((J / nrm).conj().T @ (J / nrm)).real)
+            w = np.ones(c["p"]) if Wb(c, b) is None else Wb(c, b)
+            ref = float(np.sum(w * np.diagonal(Bn) / nrm ** 2) * c["sigma2"])
+            return "stats.%s returns %r for batch element %s; Re(J^H J)/sigma2 has full rank (condition number %.3g after column normalisation), defining formula tr(W inv(Re(J^H J)/sigma2)) = %r" % (
+                "crlb_split" if key.startswith("split") else "crlb", np.asarray(out[key]).tolist(), b,
+                np.linalg.cond(np.linalg.inv(Bn)), ref)
+    return None
 
 
 def confint_term(c, out, b, spec=False, switches=None):
@@ -419,6 +474,28 @@ def run_log_tie(ctx, goals_meta):
 
 # ---------------------------------------------------------------- oracles on the implementation (failing-input search)
 def crlb_oracle_disagrees(c, out):
+    why = nonfinite_outputs(c, out)
+    if why:
+        return why
+    if c.get("scaled"):
+        # same comparison on the values brought back to order one by the exact power of two
+        for b in np.ndindex(*c["batch"]):
+            k = float(norm_factor(c, b))
+            J = np.asarray(c["J"][b], complex)
+            W = Wb(c, b)
+            ref = spec_crlb(J, W, c["sigma2"]) * k
+            if not abs(float(out["cost"][b]) * k - ref) <= 1e-8 * (1 + abs(ref)):
+                return "crlb cost %r, defining formula tr(W inv(Re(J^H J)/sigma2)) = %r (batch %s)" % (float(out["cost"][b]), ref / k, b)
+            B = np.linalg.inv(spec_fisher(J, c["sigma2"])) * k
+            w = np.ones(c["p"]) if W is None else W
+            for a in range(c["p"]):
+                if not abs(float(out["split"][(a,) + b]) * k - w[a] * B[a, a]) <= 1e-8 * (1 + abs(B[a, a] * w[a])):
+                    return "crlb_split[%d] %r, diagonal of the inverse Fisher matrix %r (batch %s)" % (a, float(out["split"][(a,) + b]), w[a] * B[a, a] / k, b)
+            if c["H"] is not None:
+                g = spec_grad(J, np.asarray(c["H"][b], complex), W, c["sigma2"]) * k
+                if not np.all(np.abs(out["grad"][b] * k - g) <= 1e-8 * (1 + np.abs(g))):
+                    return "crlb gradient %r, exact derivative %r (batch %s)" % (out["grad"][b].tolist(), (g / k).tolist(), b)
+        return None
     for b in np.ndindex(*c["batch"]):
         J = np.asarray(c["J"][b], complex)
         W = Wb(c, b)
@@ -520,6 +597,11 @@ def sequence_checks(ctx):
                 _, jac3, hes3 = seq.hessian(variables, [variables[0]])(**vals)
                 a = seq.crlb(variables, gradient=[variables[0]])(**vals)
                 checks.append(("crlb gradient=[%s]" % variables[0], list(a), list(stats.crlb(jac3, H=hes3))))
+                # gradient variables in the caller's (here: reverse alphabetical) order
+                gv = sorted(variables + [v for v in vals if v not in variables], reverse=True)[:2]
+                _, jac4, hes4 = seq.hessian(variables, gv)(**vals)
+                a = seq.crlb(variables, gradient=gv)(**vals)
+                checks.append(("crlb gradient=%s" % gv, list(a), list(stats.crlb(jac4, H=hes4))))
                 obs = sig.real + 0.01 * np.cos(np.arange(sig.shape[-1]))
                 for lvl in (0.95, 0.99) if sig.shape[-1] - len(variables) <= 9 else (0.95,):
                     ci, cb = seq.confint(obs, variables, conflevel=lvl, return_cband=True)(**vals)
@@ -591,8 +673,10 @@ def run(ctx):
     ncf = 40 if quick else 400
     terms, meta, logmeta = [], [], []
     shapes = {}
-    for i in range(ncr):
-        c = gen_crlb_case(ctx.rng, i)
+    nsc = 30 if quick else 400
+    ctx.cov["scaled_cases"] = nsc
+    for i in range(ncr + nsc):
+        c = gen_crlb_case(ctx.rng, i) if i < ncr else gen_scaled_case(ctx.rng, i - ncr)
         try:
             out = run_crlb_impl(c)
         except Exception as e:
@@ -609,11 +693,15 @@ def run(ctx):
             ctx.report("crlb/crlb_split output shapes %s %s for batch shape %s" % (np.shape(out["cost"]), np.shape(out["split"]), expected),
                        {"case": case_json(c)}, found_input=True, signature={"function": "crlb", "why": "shape"})
             continue
+        why = nonfinite_outputs(c, out)
+        if why:
+            ctx.report(why, {"case": case_json(c)}, found_input=True, signature={"function": "crlb", "why": "not finite"})
+            continue
         for b in np.ndindex(*c["batch"]):
             terms.append(crlb_term(c, out, b))
             meta.append((c, out, b))
-        why = central_difference_disagrees(c, out)
-        ctx.cov["central_difference_runs"] = ctx.cov.get("central_difference_runs", 0) + (c["H"] is not None)
+        why = None if c.get("scaled") else central_difference_disagrees(c, out)
+        ctx.cov["central_difference_runs"] = ctx.cov.get("central_difference_runs", 0) + (c["H"] is not None and not c.get("scaled"))
         if why:
             ctx.report("crlb gradient is not the derivative of crlb: " + why, {"case": case_json(c)}, found_input=True,
                        signature={"function": "crlb", "arg": "H"})
